@@ -543,11 +543,23 @@ impl PrefixCodeGroup {
             } else {
                 Numeric::from_u8(reader.read_bit()? as u8)
             };
-            let symbols = if has_second_symbol {
-                let second_symbol = reader.read(8)?;
-                vec![(first_symbol, vec![0]), (second_symbol, vec![1])]
-            } else {
-                vec![(first_symbol, vec![])]
+            let second_symbol = if has_second_symbol { Some(reader.read(8)?) } else { None };
+
+            // Symbols of a simple code must lie within the alphabet, like those of a normal code. They are read using at
+            // most 8 bits, so `to_u8` is lossless.
+            let max_symbol_count = T::alphabet_size(color_cache.len());
+            for symbol in [Some(first_symbol), second_symbol].into_iter().flatten() {
+                let symbol = u16::from(Numeric::to_u8(symbol));
+                ensure_attach!(
+                    symbol < max_symbol_count,
+                    ParseError::InvalidVp8lPrefixCode,
+                    InvalidSymbolCount(symbol, max_symbol_count),
+                );
+            }
+
+            let symbols = match second_symbol {
+                Some(second_symbol) => vec![(first_symbol, vec![0]), (second_symbol, vec![1])],
+                None => vec![(first_symbol, vec![])],
             };
             CanonicalHuffmanTree::from_symbols(symbols)?
         } else {
